@@ -479,6 +479,45 @@ def rule_G(ctx) -> None:
         ctx.refuted("G7", "_call_rpc_handler_server_stream:sends-each-message", "shape", srv.loc(sf), "the server-streaming helper does not send exactly each yielded message once, in order")
 
 
+def rule_G9(ctx, rule: str = "G9") -> None:
+    """request / response types of an RPC are message classes: the type references the service compiler hands to the
+    template (stub signatures, handler table) are produced with unwrapping switched off - a wrapper / Timestamp / Duration
+    used directly as request or response must stay the message class, not Optional[int] / datetime"""
+    mod = ctx.repo.mod(M_MODELS)
+    for q in ("ServiceMethodCompiler.py_input_message_type", "ServiceMethodCompiler.py_output_message_type"):
+        fn = mod.func(q)
+        ctx.analysed(q)
+        paths = Interp(mod).run(fn)
+        ctx.count(len(paths))
+        calls_ = [e.data for p in paths for e in p.events if e.kind == "call" and dotted(e.data[1]).split(".")[-1] == "get_type_reference"]
+        name = f"{q.split('.')[-1]}:keeps-message-class"
+        if not calls_:
+            ctx.inconclusive(rule, name, "no get_type_reference call reached", mod.loc(fn))
+            continue
+        gtr = ctx.repo.mod("src/betterproto/compile/importing.py").func("get_type_reference")
+        params = [a.arg for a in gtr.args.args + gtr.args.kwonlyargs]
+        defaults = dict(zip([a.arg for a in gtr.args.args][len(gtr.args.args) - len(gtr.args.defaults):], gtr.args.defaults))
+        defaults.update({a.arg: d for a, d in zip(gtr.args.kwonlyargs, gtr.args.kw_defaults) if d is not None})
+        bad = None
+        for c in calls_:
+            kw = dict(c[3])
+            v = kw.get("unwrap")
+            if v is None and "unwrap" in params and params.index("unwrap") < len(c[2]):
+                v = c[2][params.index("unwrap")]
+            if v is None:
+                d = defaults.get("unwrap")
+                v = C(d.value) if isinstance(d, ast.Constant) else None
+            if v != C(False):
+                bad = show(v) if v is not None else "default"
+        if bad:
+            ctx.refuted(rule, name, f"unwrap={bad}", mod.loc(fn),
+                        f"{q} asks get_type_reference with unwrap={bad}: an RPC whose request / response is a google.protobuf wrapper, Timestamp or Duration gets Optional[int] / datetime "
+                        "in the stub signature and in the handler table instead of the message class - the generated module fails or the call cannot be (de)serialised",
+                        "rpc Get(google.protobuf.StringValue) returns (google.protobuf.Timestamp)")
+        else:
+            ctx.proved(rule, name, mod.loc(fn), "unwrap=False")
+
+
 # ---------------------------------------------------------------------------
 # X1 imports_end: producers precede the consumer loop
 
